@@ -20,7 +20,7 @@ package cleaner
 // clean is entered and left with the lock held; it runs the cleaner with the
 // lock released, only when nothing is in use and no other cleaning is running.
 //@ func (*IdleInvoker).clean
-//@   props C12
+//@   props C12 C14
 //@   requires only-cleaned-when-idle: i.useCount == 0
 //@   panics_if i.wakeup != nil
 //@   at call dyn#1 assert cleaner-runs-without-the-lock: held(i.lock) == -1
